@@ -1,16 +1,20 @@
 /-
   Composition C09 ∘ C10 — the did:nuts pipeline end to end.  Core Lean only; executable.
 
-  The two property models:
+  The property models:
     * C09 (`Nuts.C09`): the ambassador.  `deliver c s tx pd` is ONE delivery (DAG signature verifier, then `callback`) into a
       given C10 store `s`; `step` is the store afterwards plus the outcome class.
     * C10 (`Nuts.C10`): the DID store.  `addAll cfg {} l` is the store after the arrival sequence `l` of events; C10's theorems
       take `l` ("the accepted events") as an unconstrained input.
+    * C13 (`Nuts.C13`): the subject manager.  Its external did:nuts state `pub : Nat → List Content` ("what the didstore
+      resolves") is an unconstrained input there; `pubOf` is the view of a C10 store as such a state.
   This file holds ONLY the glue: a node that receives a whole HISTORY of deliveries through C09's `step`, and the list of
   events C09 accepted on the way — the list C10's theorems are to be instantiated with.  Nothing of the two models is copied:
   everything goes through `C09.step` / `C09.deliver` / `C09.eventOf` and `C10.addAll`.
 -/
 import NutsModel.C09.Ambassador
+import NutsModel.C09.Manager
+import NutsModel.C13.Subject
 
 namespace Nuts.Compose.Did
 open Nuts Nuts.C10 Nuts.C09
@@ -52,4 +56,20 @@ def causalFrom (seen : List Nat) (all : List Nat) : List Delivery → Bool
 
 def causal (l : List Delivery) : Bool := causalFrom [] (l.map (·.1.ref)) l
 
+
+/-! ### C10 store → C13's external did:nuts state -/
+
+/-- C10 `Doc` → C13 `Content`: the capabilityInvocation key ids as tokens (`tok`; C13: "every generated key has that usage")
+    and the service ids -/
+def absContent (tok : String → Nat) (d : Doc) : C13.Content :=
+  { vms := (d.f .capInv).map (fun e => tok e.id), svcs := (d.f .service).map (·.id) }
+
+/-- C10 `Store` → C13 `pub` ("the documents published for DID `d`, newest first: what the didstore resolves"): the DID's
+    version chain, newest first; `name` is C13's numbering of the DIDs -/
+def pubOf (tok : String → Nat) (name : Nat → String) (s : Store) : Nat → List C13.Content :=
+  fun n => (s.get (name n)).chain.reverse.map (fun p => absContent tok p.1)
+
+/-- the `did_change_log` record C13 hands to didnuts `Commit` for a deactivation of DID `n` -/
+def deactivationOf (n : Nat) : C13.Change :=
+  { did := n, method := .nuts, row := 0, typ := .deactivated, tx := 0, ts := 0, c := C13.Content.empty }
 end Nuts.Compose.Did
